@@ -85,10 +85,20 @@ POOL = [
     "characters(digits => true).len()", 'int("12") + float("1.5")',
     '$.items.max() - $.items.min()', 'isString($.s) and isList($.items)',
     '$src.take(3).select($ + 1)', '$src.where($ mod 2 = 0).take(2).sum()',
-    # deep expressions (whatever the outcome alone is - a value or a
-    # recursion error - it must be the same with company)
-    ' + '.join(['$.a'] + ['1'] * 219), ' + '.join(['1'] * 120),
-    '[' * 60 + '$.b' + ']' * 60,
+    # deep expressions: alone the first needs about two thirds of the
+    # interpreter's stack, the others about 40% (the harness's scheduling
+    # hooks add a frame of their own to every call level, so a statement at
+    # the very edge of the recursion limit fails under the scheduler for
+    # that reason alone - a false alarm the thorough tier raised with 219
+    # operands; the baseline is computed under the same hooks in a thread
+    # of its own for the same reason); with company they must still get
+    # their value
+    ' + '.join(['$.a'] + ['1'] * 100), ' + '.join(['1'] * 60),
+    # ... and one far beyond the stack: a recursion error alone, the same
+    # with company (nothing near the edge, where a frame more or less
+    # decides)
+    ' + '.join(['$.a'] + ['1'] * 200),
+    '[' * 40 + '$.b' + ']' * 40,
 ]
 DOCS = [
     {'a': 3, 'b': 4, 's': 'ab a1 b2', 'items': [3, 1, 2, 2],
@@ -145,6 +155,12 @@ def bare_library():
     return yaqlized.register(ctx)
 
 
+def _ic(text):
+    """statement text as the class of a violation (long ones abridged)"""
+    return text if len(text) <= 80 else '%s ... (%d characters)' % (
+        text[:60], len(text))
+
+
 def make_parent(lib=None):
     parent = (lib or common.std_context()).create_child_context()
     parent['$fd'] = yutils.FrozenDict({'k': 1, 'j': (1, 2), 'z': 'zz'})
@@ -188,9 +204,22 @@ _BASE = {}
 
 
 def baseline(si, di):
+    """the statement evaluated alone - in a thread of its own and with the
+    scheduling hooks installed, i.e. with the very stack budget its
+    concurrent evaluations have (the deep statements need most of it)"""
     key = (si % len(POOL), di % len(DOCS))
     if key not in _BASE:
-        _BASE[key] = evaluate(statements()[key[0]], key[1], make_parent())
+        import threading
+        install_points()
+        # (the recursion limit the concurrent runs have: Hypothesis raises
+        # it while it runs a test)
+        common.reset_process_state()
+        box = []
+        t = threading.Thread(target=lambda: box.append(evaluate(
+            statements()[key[0]], key[1], make_parent())))
+        t.start()
+        t.join()
+        _BASE[key] = box[0]
     return _BASE[key]
 
 
@@ -220,9 +249,9 @@ def _judge(run, case, threads, results, parent, before):
             if got != exp:
                 run.violate('result-differs-from-sequential', case,
                             'thread %d, %s on document %d: alone %r, '
-                            'concurrently %r' % (ti, POOL[si % len(POOL)],
+                            'concurrently %r' % (ti, _ic(POOL[si % len(POOL)]),
                                                  di % len(DOCS), exp, got),
-                            input_class=POOL[si % len(POOL)])
+                            input_class=_ic(POOL[si % len(POOL)]))
                 return True
     if snap_parent(parent) != before:
         run.violate('shared-context-changed', case,
@@ -364,7 +393,7 @@ def _free(run, n_threads, per_thread, use_eval=False):
         label, di, exp, got = bad[0]
         run.violate('free-running-result-differs', case,
                     '%s on document %d: alone %r, concurrently %r' % (
-                        label, di, exp, got), input_class=label)
+                        _ic(label), di, exp, got), input_class=_ic(label))
     elif not use_eval and snap_parent(parent) != before:
         run.violate('shared-context-changed', case, 'free-running tier',
                     input_class='parent')
@@ -554,7 +583,7 @@ def check_cold(run, case):
             run.violate('cold-result-differs-from-sequential', case,
                         '%s context, thread %s, %s: alone %r, concurrently '
                         '%r' % (variant, who, POOL[si % len(POOL)], exp, got),
-                        input_class='%s/%s' % (variant, POOL[si % len(POOL)]))
+                        input_class='%s/%s' % (variant, _ic(POOL[si % len(POOL)])))
             return
     if snap_parent(parent) != before:
         run.violate('shared-context-changed', case,
@@ -636,6 +665,7 @@ def _hyp_shard(run, n, shard):
 
 def run(run):
     full = run.tier == 'thorough'
+    common.reset_process_state()      # remembers the interpreter's settings
     statements()
     common.std_context()
     # systematic pairs: each statement against a partner chosen by the seed,
